@@ -1,6 +1,6 @@
 package main
 
-// Engine "api" (serves C05 and C11): the exported API of a real Server / of the bundled peer store
+// Engine "api" (serves C05, C11 and, with the maintshare cases of srv_api_maintshare.go, C09): the exported API of a real Server / of the bundled peer store
 // driven from SEVERAL goroutines at once, which the event-by-event server engine never does.
 //
 //   C05  overlapping AddNode / AddNodesFromFile / inbound queries / responses to our own pings /
@@ -117,6 +117,10 @@ func apiCases(tier string) []apiCase {
 		cs = append(cs, apiCase{prop: "C11", kind: "ps-flood", mix: "held", par: 3000, rounds: 10})
 		cs = append(cs, apiCase{prop: "C11", kind: "ps-flood", mix: "contended", par: 3000, rounds: 10})
 	}
+	// ---- C09 (srv_api_maintshare.go; appended: the cases above keep their index and PRNG stream)
+	for i := 0; i < sc(6, 40); i++ {
+		cs = append(cs, apiCase{prop: "C09", kind: "maintshare", rounds: 1})
+	}
 	return cs
 }
 
@@ -139,7 +143,7 @@ func apiEngine(seed uint64, tier string, args []string) {
 	}
 	// a check of one of the two properties runs that property's cases only
 	only := os.Getenv("VERIF_PROP")
-	if only != "C05" && only != "C11" {
+	if only != "C05" && only != "C11" && only != "C09" {
 		only = ""
 	}
 	for i := from; i < len(cases); i++ {
@@ -154,6 +158,8 @@ func apiEngine(seed uint64, tier string, args []string) {
 			runApiCounters(seed, i, c)
 		case "maint":
 			runApiMaint(seed, i, c)
+		case "maintshare":
+			runApiMaintShared(seed, i, c)
 		case "batch":
 			runApiBatch(seed, i, c)
 		case "nodesfile":
@@ -291,6 +297,7 @@ type apiSrv struct {
 
 	mu         sync.Mutex
 	responders map[string]apiNode // address -> simulated node answering our queries with its id
+	noPing     map[string]bool    // addresses of simulated nodes that answer every query except ping
 	replies    apiCounter
 	must       map[string]bool // candidates certainly offered for insertion since the last model line
 	may        map[string]int  // candidates possibly offered: unresolved asynchronous offers (kept for good)
@@ -365,6 +372,9 @@ func newApiSrvOpt(idx int, c apiCase, r *rng, resend time.Duration, nosec bool, 
 		}
 		a.mu.Lock()
 		p, known := a.responders[to.String()]
+		if known && m.Q == "ping" && a.noPing[to.String()] {
+			known = false
+		}
 		a.mu.Unlock()
 		if !known {
 			return
